@@ -71,6 +71,8 @@ def differential(C, case, nargs, reg, contracts, lib):
     run.inline_all = True
     res = explore(run)
     res = [r for r in res]
+    if len(res) == 0 and C.requires is not None:
+        return None      # the input satisfies only the native (wider) precondition: outside the domain of the symbolic contract
     if len(res) != 1:
         return "engine produced %d paths on concrete input" % len(res)
     ctx, outcome, args, value = res[0]
